@@ -47,6 +47,14 @@ def gen_iri_graph(rng):
             r = rng.random()
             o = L('v%d' % rng.randint(0, 5), rng.choice(gen.DTS[:3])) if r < 0.5 else rng.choice(nodes) if r < 0.85 else I('ext%d' % rng.randint(0, 3))
             g.append((n, EX + 'p%d' % pi, o))
+    if rng.random() < 0.3:
+        # incoming links of one property from blank nodes AND from IRIs without a class (with inverse_paths they merge into one NONLITERAL
+        # constraint, whose example must still be an incoming value), next to outgoing values of the same property
+        for n in rng.sample(nodes, rng.randint(1, len(nodes))):
+            g.append((B('citer%d' % rng.randint(0, 2)), EX + 'cites', n))
+            g.append((I('extciter%d' % rng.randint(0, 2)), EX + 'cites', n))
+            if rng.random() < 0.5:
+                g.append((n, EX + 'cites', I('other%d' % rng.randint(0, 2))))
     g = list(dict.fromkeys(g))
     rng.shuffle(g)
     return g
